@@ -49,7 +49,7 @@ class _FixedTime:
 
     @staticmethod
     def time():
-        return 1594203795.0
+        return 1593835530.0  # = time signed of the TSIG specimen + 10 s
 
 
 dns.message.time = _FixedTime
